@@ -1913,12 +1913,16 @@ async function shallow_parse_input_query(query_text, input_iterator, join_tables
                 throw new RbqlParsingError('EXCEPT and JOIN are not allowed in the same query');
             }
             let [output_header, select_expression] = translate_except_expression(rb_actions[EXCEPT]['text'], input_variables_map, string_literals, input_header);
+            if (rb_actions[SELECT].hasOwnProperty('distinct_count') && output_header !== null)
+                output_header = ['col1'].concat(output_header); // The leading count column of DISTINCT COUNT
             query_context.select_expression = select_expression;
             query_context.writer.set_header(output_header);
         } else {
             let [select_expression, select_expression_for_header] = translate_select_expression(rb_actions[SELECT]['text']);
             query_context.select_expression = combine_string_literals(select_expression, string_literals);
             let column_infos = adhoc_parse_select_expression_to_column_infos(select_expression_for_header, string_literals);
+            if (rb_actions[SELECT].hasOwnProperty('distinct_count'))
+                column_infos = [null].concat(column_infos); // The leading count column of DISTINCT COUNT has no source column: it gets the generic name
             let output_header = select_output_header(input_header, join_header, column_infos);
             query_context.writer.set_header(output_header);
         }
